@@ -77,9 +77,13 @@ func lockOp(cc *ssa.CallCommon) (fld *types.Var, acquire bool, mode int, ok bool
 	if fld, acquire, mode, ok = syncLockOp(cc); ok {
 		return
 	}
-	// a wrapper of the module (`func (d *T) lock() { d.mu.Lock() }`): a straight-line function whose only call is one
-	// lock operation on a mutex field reached from one of its parameters counts as that operation
-	f := calleeFunc(cc)
+	return wrapperLockOp(calleeFunc(cc))
+}
+
+// wrapperLockOp: f is a wrapper of the module (`func (d *T) lock() { d.mu.Lock() }`): a straight-line function whose
+// only call is one lock operation on a mutex field reached from one of its parameters counts as that operation. Such a
+// function is *meant* to return with the lock held (resp. to release a lock it did not take).
+func wrapperLockOp(f *ssa.Function) (fld *types.Var, acquire bool, mode int, ok bool) {
 	if f == nil || f.Blocks == nil || len(f.Blocks) != 1 || f.Pkg == nil || !strings.HasPrefix(f.Pkg.Pkg.Path(), modPath) {
 		return nil, false, 0, false
 	}
